@@ -77,7 +77,7 @@ PROPS.update({
                  S("call", "run_prop CPanic P04", 200, 4000, variant="nat")],
         witness=[],
         nontrivial_rule="at least two function executions in the history",
-        explanation="Theorems C04_errors (unconditional) and C04 (under well-formed use) (proofs/C04Errors*.v): a failing execution is the last event of the trace and its error is what the call returns; a result without error executed no failing function; a resolution failure never runs the target. C04_unrestricted_refuted shows the hypothesis is needed. Correspondence: ordered (function, error) trace and error identity (pointer-equal error values).",
+        explanation="Theorems C04_errors (unconditional) and C04 (under well-formed use) (proofs/C04Errors*.v): a failing execution is the last event of the trace and its error is what the call returns; a result without error executed no failing function; a resolution failure never runs the target. C04_unrestricted_refuted shows the hypothesis is needed. C04_history (proofs/C0417Hist*.v): over every history of Call/Redefine from an empty memo table the error a call returns was returned by an execution of that call or is the memoized failure of a run-once function (c04_error_origin, also evaluated on the implementation). Correspondence: ordered (function, error) trace and error identity (pointer-equal error values).",
         assumptions=[]),
     "C09": dict(layer=RES,
         streams=[S("redeftwin", "run_twin CFull 9", 300, 8000), S("once", "run_prop2 CFull 9", 250, 6000), S("redefine", "run_prop2 CFull 9", 250, 6000),
@@ -125,7 +125,7 @@ PROPS.update({
         streams=[S("results", "check_res_all", 600, 20000), S("once", "run_prop2 CFull 17", 300, 8000), S("call", "run_prop2 CFull 17", 200, 6000)],
         witness=[],
         nontrivial_rule="function with at least one result",
-        explanation="Theorem C17 (proofs/C141517VS*.v) over the model of result.go: k values followed by an error give length k, outputs in order and Err = the final value (nil when nil); a final value of a concrete error type or an error that is not last are ordinary outputs; a resolution failure gives length 0 and a non-nil error. Correspondence: functions of random result shapes (plain values, error interface at any position, *myErr concrete error type, nil and non-nil) called through Call; Len/Out(i)/Err compared by identity.",
+        explanation="Theorem C17 (proofs/C141517VS*.v) over the model of result.go: k values followed by an error give length k, outputs in order and Err = the final value (nil when nil); a final value of a concrete error type or an error that is not last are ordinary outputs; a resolution failure gives length 0 and a non-nil error. C17_history (proofs/C0417Hist*.v): on the resolver model, over every history, the raw outputs of a successful Call are what the target's body returned in that operation or (memoized run-once target) earlier. Correspondence: functions of random result shapes (plain values, error interface at any position, *myErr concrete error type, nil and non-nil) called through Call; Len/Out(i)/Err compared by identity.",
         assumptions=[]),
 })
 
@@ -190,6 +190,6 @@ PROPS.update({
                  S("c07f1", "run_prop2 CPanic 7", 150, 3000, variant="nat"), S("c07f2", "run_prop2 CPanic 7", 150, 3000, variant="nat")],
         witness=[],
         nontrivial_rule="every family scenario (three order tapes each)",
-        explanation="Theorems C07_f1 / C07_f2 (proofs/C07Affinity*.v): for the two documented priority families -- F1: one named parameter (n,U), a type-only converter T->U and ANY number of competing named inputs of type T of which one is named n; F2: additionally a converter taking (n,T) by name -- and for EVERY order tape (validated heap pops, any iteration order) the converter receives exactly the value named n (F1) and the by-name converter runs while the type-only one does not (F2). The proof characterises the pruned call graph of the family exactly, the matching-name discount, and runs the model's Dijkstra by invariant for every admissible pop sequence; it consumes gen_weights_ok from the regenerated GenWeights.v. Correspondence: family streams with distractor inputs/converters over disjoint types, case variants, shuffled options and registration orders, three tapes per scenario, instrumented and native order; monitor c07_monitor on the implementation's traces.",
+        explanation="Theorems C07_f1 / C07_f2 (proofs/C07Affinity*.v): for the two documented priority families -- F1: one named parameter (n,U), a type-only converter T->U and ANY number of competing named inputs of type T of which one is named n; F2: additionally a converter taking (n,T) by name -- and for EVERY order tape (validated heap pops, any iteration order) the converter receives exactly the value named n (F1) and the by-name converter runs while the type-only one does not (F2); F3 (proofs/C07F3*.v): m >= 2 named parameters produced by ONE type-only converter from k >= m same-typed named inputs -- the i-th argument of the target is the converter's result for exactly the input named like the i-th parameter, for every tape and behaviour. The proof characterises the pruned call graph of the family exactly, the matching-name discount, and runs the model's Dijkstra by invariant for every admissible pop sequence; it consumes gen_weights_ok from the regenerated GenWeights.v. Correspondence: family streams with distractor inputs/converters over disjoint types, case variants, shuffled options and registration orders, three tapes per scenario, instrumented and native order; monitor c07_monitor on the implementation's traces.",
         assumptions=["the theorem covers the families without distractors; distractors over disjoint types are explored by the streams"]),
 })
